@@ -426,6 +426,9 @@ type session struct {
 	algo    uint16
 	pool    [][]byte // client's cookies
 	sealed  []*sealedCookie
+	// listeners: the identifier the reply must carry when the datagram sent is not the
+	// first honest request of the list
+	uidOverride []byte
 }
 
 type sealedCookie struct {
@@ -625,7 +628,9 @@ func recvK(kind, extra string, tags string, hs []*honest, dir int, b, key, reqid
 	} else {
 		outs = lib.V(lib.I(int64(dcode)), "x", "[]", "0", "x", "x", "0", "-1", "[]")
 	}
-	if kind != "" {
+	if kind != "" && dir == 0 {
+		w.Case(kind, tags, lib.V(HL(hs), lib.B(b), lib.B(key), tab(ent)), outs)
+	} else if kind != "" {
 		w.Case(kind, tags, lib.V(HL(hs), lib.B(b), lib.B(key), lib.B(reqid), tab(ent), extra), outs)
 	} else if dir == 0 {
 		w.Case("nts.req", tags, lib.V(HL(hs), lib.B(b), lib.B(key), tab(ent)), outs)
@@ -1201,16 +1206,20 @@ func wrongKeys(r *lib.Rng, h *honest, t target) {
 		t2.key = k
 		deliver("nt,wrongkey", hs, t2, h.b)
 	}
-	// keys that differ in the second half only: AES-SIV does not use that half when
-	// the plaintext is empty (requests), so those verify; with a plaintext (responses) they do not
-	tg := "nt,wrongkey,ctrhalf,nonempty"
-	if len(h.pt) == 0 {
-		tg = "nt,wrongkey,ctrhalf,emptypt"
-	}
+	// keys that differ in the second half only.  With a plaintext (responses) they are
+	// rejected.  With an empty plaintext (requests) AES-SIV never uses that half and the
+	// packet verifies: a known finding, kept in a kind of its own (nts.ctrhalf) and judged
+	// by the same strict oracle
 	for _, k := range ctrKeys(r, t.key) {
+		if len(h.pt) == 0 {
+			if t.l == nil && t.dir == 0 {
+				recvK("nts.ctrhalf", "", "nt,wrongkey,ctrhalf,emptypt", hs, 0, h.b, k, nil)
+			}
+			continue
+		}
 		t2 := t
 		t2.key = k
-		deliver(tg, hs, t2, h.b)
+		deliver("nt,wrongkey,ctrhalf,nonempty", hs, t2, h.b)
 	}
 }
 
@@ -1470,6 +1479,8 @@ func replay(path string) {
 			recv(c[1], parseHonests(a[0]), 0, a[1].B(), a[2].B(), nil)
 		case "nts.resp":
 			recv(c[1], parseHonests(a[0]), 1, a[1].B(), a[2].B(), a[3].B())
+		case "nts.ctrhalf":
+			recvK("nts.ctrhalf", "", c[1], parseHonests(a[0]), 0, a[1].B(), a[2].B(), nil)
 		case "nts.session":
 			recvK("nts.session", lib.V(lib.I(a[5].I()), lib.I(a[6].I())), c[1], parseHonests(a[0]), 1, a[1].B(), a[2].B(), a[3].B())
 		case "nts.encode":
